@@ -1,2 +1,86 @@
+(* Properties/C19.v — a field's help text comes from its own documentation, by fixed precedence.
+   Only statements closed by `exact`, each followed by Print Assumptions. *)
 From SPV Require Import Base.Str Model.DocScan Model.DocScanSpec Gen.FactsDoc Proofs.DocScanProofs.
-Example C19_nonvacuous : 1 = 1. Proof. reflexivity. Qed.
+
+(* Printer/scanner round trip, for EVERY well-formed layout (any number of fields, any blank lines, comment
+   blocks, inline comments, one-line / multi-line docstrings in either quote style, any header lines that are
+   not field definitions and carry no comment): the scanner (with the literals regenerated from the source)
+   returns exactly the documentation written for the queried field - nothing from another field, nothing
+   invented - and None exactly when the class does not declare the field.
+   wf_layout is a boolean predicate: marker texts without '#', ':', '=', quote characters, newlines and without
+   white space at their ends; comment and inline markers non-empty; identifiers as field names. *)
+Theorem C19_scan_render : forall L f,
+  wf_layout L = true -> scan_lines_gen (render L) f = option_map triple (docs L f).
+Proof. exact scan_render. Qed.
+Print Assumptions C19_scan_render.
+
+(* the same for _get_attribute_docstring on a class whose source (class docstring cut out) is the printed
+   layout; the class-docstring entry is the oracle's (docstring_parser) answer for that very field *)
+Theorem C19_scan_class_render : forall k L f,
+  wf_layout L = true -> code_lines k = Some (render L) ->
+  scan_class_gen k f = option_map (fun d => parts_of d (last_assoc f (k_args k) "")) (docs L f).
+Proof. exact scan_class_render. Qed.
+Print Assumptions C19_scan_class_render.
+
+(* help precedence: the regenerated or-chain of FieldWrapper.help IS the documented order
+   (help=, docstring below, comment above, inline comment, class-docstring entry; nothing -> no help) *)
+Theorem C19_precedence : forall explicit d, help_gen explicit d = spec_help explicit (parts_prov d).
+Proof. exact help_precedence. Qed.
+Print Assumptions C19_precedence.
+
+Theorem C19_help_string_chain : HELP_STRING_CHAIN = HELP_CHAIN.
+Proof. exact help_string_chain_same. Qed.
+Print Assumptions C19_help_string_chain.
+
+(* MRO accumulation: every part is the first non-empty one among the classes of the chain, nearest first *)
+Theorem C19_nearest_class : forall scans p,
+  get_part p (result_of (acc_pure_gen scans None)) = nearest_part p scans.
+Proof. exact nearest_class. Qed.
+Print Assumptions C19_nearest_class.
+
+(* against the spec (each kind from the nearest class that PROVIDES it).  Full strength is false of the code:
+   a class that documents an inherited field only in its class docstring is skipped ... *)
+Theorem C19_nearest_class_refuted :
+  exists chain, parts_prov (result_of (acc_pure_gen (map scan_of chain) None)) <> spec_parts (map prov_of chain).
+Proof. exact nearest_class_refuted. Qed.
+Print Assumptions C19_nearest_class_refuted.
+
+(* ... and it holds whenever class-docstring entries are written only by classes that declare the field *)
+Theorem C19_nearest_class_partial : forall chain,
+  forallb entry_declared chain = true ->
+  parts_prov (result_of (acc_pure_gen (map scan_of chain) None)) = spec_parts (map prov_of chain).
+Proof. exact nearest_class_partial. Qed.
+Print Assumptions C19_nearest_class_partial.
+
+(* the lru_cache: on a fresh cache get_attribute_docstring is the pure accumulation ... *)
+Theorem C19_first_query_pure : forall scan mro,
+  NoDup mro -> fst (get_doc_gen scan mro []) = result_of (acc_pure_gen (map scan mro) None).
+Proof. exact get_doc_fresh. Qed.
+Print Assumptions C19_first_query_pure.
+
+(* ... but answers are history dependent: the cached object of the first defining class is updated in place *)
+Theorem C19_history_independent_refuted :
+  exists (scan : string -> option parts) (mroD mroA : list string),
+    NoDup mroD /\ NoDup mroA /\
+    nth 1 (run_queries_gen scan [mroD; mroA] []) EMPTY_PARTS <> fst (get_doc_gen scan mroA []).
+Proof. exact history_independent_refuted. Qed.
+Print Assumptions C19_history_independent_refuted.
+
+(* non-vacuity: a concrete layout inside the theorem's domain, what it prints and what the scanner answers *)
+Definition demo : layout :=
+  mklayout ["@dataclass(frozen=True)"; "class Opt(Base):"; "    """""""; """"""""] 4
+    [ mkfld "lr" "float" (Some "1e-3") 0 ["learning rate"; "second line"] (Some "inline lr") None;
+      mkfld "lr_decay" "float" None 1 [] None (Some (DMulti Sq "" ["decay of lr"; ""; "more"] ""));
+      mkfld "name" "str" (Some """run 1""") 2 ["above name"] None (Some (DOne Dq "doc of name")) ] 1.
+
+Example C19_nonvacuous :
+  wf_layout demo = true
+  /\ render demo = ["@dataclass(frozen=True)"; "class Opt(Base):"; "    """""""; """""""";
+                    "    # learning rate"; "    # second line"; "    lr: float = 1e-3  # inline lr";
+                    ""; "    lr_decay: float"; "    '''"; "    decay of lr"; "    "; "    more"; "    '''";
+                    ""; ""; "    # above name"; "    name: str = ""run 1"""; "    """"""doc of name"""""""; ""]
+  /\ scan_lines_gen (render demo) "lr" = Some (join_text ["learning rate"; "second line"], "inline lr", "")
+  /\ scan_lines_gen (render demo) "lr_decay" = Some ("", "", join_text [""; "decay of lr"; ""; "more"; ""])
+  /\ scan_lines_gen (render demo) "name" = Some ("above name", "", "doc of name")
+  /\ scan_lines_gen (render demo) "l" = None.
+Proof. vm_compute. repeat split; reflexivity. Qed.
